@@ -142,7 +142,7 @@ Hist == Keep /\ Clean /\ UNCHANGED <<staged, stagedIn, stashed, pruned, wt, rt2>
 PCommit(b, p, blob, g) == Hist /\ b # wt /\ Commit(b, p, blob, g)
 PCommitTree(b, t, g)   == Hist /\ b # wt /\ CommitTree(b, t, g)
 PMerge(b, o)           == Hist /\ b # wt /\ Merge(b, o)
-PPush(S)               == Hist /\ Push(S, "git-push", {}, FALSE)
+PPush(S)               == Hist /\ Push(S, "git-push", {}, FALSE, FALSE)
 POtherPush(b)          == Hist /\ OtherPush(b)
 PStage(p, o, where)    == Keep /\ Stage(p, o, where)
 PStash(p, o, k)        == Keep /\ Stash(p, o, k)
